@@ -107,8 +107,6 @@ ares_status_t
     return ARES_EFORMERR;
   }
 
-  memset(&channel->sock_funcs, 0, sizeof(channel->sock_funcs));
-
   /* Copy individually for ABI compliance.  memcpy() with a sizeof would do
    * invalid reads */
   if (funcs->version >= 1) {
@@ -117,6 +115,13 @@ ares_status_t
         funcs->arecvfrom == NULL || funcs->asendto == NULL) {
       return ARES_EFORMERR;
     }
+  }
+
+  ares_channel_lock(channel);
+
+  memset(&channel->sock_funcs, 0, sizeof(channel->sock_funcs));
+
+  if (funcs->version >= 1) {
     channel->sock_funcs.version      = funcs->version;
     channel->sock_funcs.flags        = funcs->flags;
     channel->sock_funcs.asocket      = funcs->asocket;
@@ -133,6 +138,8 @@ ares_status_t
 
 
   channel->sock_func_cb_data = user_data;
+
+  ares_channel_unlock(channel);
 
   return ARES_SUCCESS;
 }
@@ -582,7 +589,9 @@ void ares_set_socket_functions(ares_channel_t                     *channel,
     return;
   }
 
+  ares_channel_lock(channel);
   channel->legacy_sock_funcs         = funcs;
   channel->legacy_sock_funcs_cb_data = data;
   ares_set_socket_functions_ex(channel, &legacy_socket_functions, channel);
+  ares_channel_unlock(channel);
 }
